@@ -98,6 +98,10 @@ func keyPool(t *schema.Type, thorough bool) []poolKey {
 				break
 			}
 		}
+		if t.Base().Kind == schema.Enum {
+			// a constant outside the declared symbols cannot be encoded: a call holding it must fail before anything is sent
+			add("illegal-constant", schema.VEOrd(t, int32(len(t.Symbols)+5)))
+		}
 	}
 	return pool
 }
@@ -313,6 +317,18 @@ func checkBatch(w *World, gen string, r *schema.Resource, m *schema.Method, keys
 	var callErr error
 	if ev := outs[len(outs)-1]; !ev.IsNil() {
 		callErr = ev.Interface().(error)
+	}
+	for _, k := range keys {
+		if k.v.T.Base().Kind == schema.Enum && k.v.Sym == "" {
+			// the key cannot be put on the wire at all
+			if callErr == nil {
+				return "unencodable-key-accepted", fmt.Sprintf("the key set holds a key that cannot be encoded (%s) and the call succeeded%s", k.label, w.wireSummary())
+			}
+			if len(w.transport.Exchanges) != 0 {
+				return "unencodable-key-sent", fmt.Sprintf("a request was sent although the key %s cannot be encoded: %s", k.label, requestLine(w))
+			}
+			return "", ""
+		}
 	}
 	if dup {
 		if callErr == nil {
